@@ -296,6 +296,31 @@ def _gen_wide(rng, tier):
                 tf = None
             yield {"prop": PROP, "op": "yaml", "kind": "tensor", "d": depth, "dflt": dflt, "name": name,
                    "build": {"nest": nest, "transform": tf, "perm_seed": rng.randrange(1000)}}
+    # --- fiber-level dump/load of fibers taken out of transformed tensors (tuple coordinates at the top or below)
+    ftf = [["flatten", 0, 1, "tuple"], ["flatten", 0, 1, "pair"], ["flatten", 1, 1, "tuple"], ["flatten", 0, 2, "tuple"],
+           ["flatten2"], ["split", 1, 0], ["swap", 0], None]
+    for dims in ([2, 2], [2, 1, 2]):
+        n = 1
+        for x in dims:
+            n *= x
+        for bits in itertools.product([False, True], repeat=n):
+            nest = _nest_from_flat(dims, [3 if b2 else 0 for b2 in bits])
+            for tf in ftf:
+                if tf is not None and ((tf[0] == "flatten" and tf[1] + tf[2] >= len(dims)) or (tf[0] == "flatten2" and len(dims) < 3)):
+                    continue
+                yield {"prop": PROP, "op": "yaml", "kind": "fiber", "d": len(dims), "dflt": 0, "name": "",
+                       "build": {"nest": nest, "transform": tf, "perm_seed": 0}}
+    for i in range(150 if quick else 6000):
+        depth = rng.choice([2, 3, 3, 4])
+        dflt = rng.choice(DFLTS_WIDE)
+        dims = [rng.choice([1, 2, 3]) for _ in range(depth)]
+        nest = _rand_nest(rng, dims, dflt, rng.choice([INTS, FLOATS]), rng.choice([0.3, 0.6]))
+        tf = rng.choice(ftf + TRANSFORMS)
+        if tf is not None and ((tf[0] == "flatten" and tf[1] + tf[2] >= depth) or (tf[0] == "split" and tf[2] >= depth)
+                               or (tf[0] == "flatten2" and depth < 3)):
+            tf = None
+        yield {"prop": PROP, "op": "yaml", "kind": "fiber", "d": depth, "dflt": dflt, "name": "",
+               "build": {"nest": nest, "transform": tf, "perm_seed": rng.randrange(1000)}}
     # --- random: extents beyond one digit
     for shape in ([12], [11, 2], [2, 11], [10, 1, 2]):
         for q in (0.0, 0.25, 0.5, 0.75, 1.0):
@@ -328,6 +353,22 @@ def _num(v):
     return {"obj": type(v).__name__}
 
 
+def _coord(c):
+    """a coordinate (or shape entry) as JSON: int stays, a TUPLE becomes a list; a Python LIST (never a legal
+    coordinate: not hashable, not comparable with tuples) is tagged so that the driver rejects it"""
+    if isinstance(c, tuple):
+        return [_coord(x) for x in c]
+    if isinstance(c, list):
+        return {"list": [_coord(x) for x in c]}
+    if isinstance(c, bool) or not isinstance(c, int):
+        return {"obj": type(c).__name__}
+    return c
+
+
+def _shape(sh):
+    return [_coord(x) for x in sh] if isinstance(sh, (list, tuple)) else _plain(sh)
+
+
 def snap(obj):
     """raw walk over coords/payloads; leaves are the unboxed numbers"""
     Fiber, Payload = H.ft().Fiber, H.ft().Payload
@@ -338,7 +379,7 @@ def snap(obj):
     if isinstance(obj, Fiber):
         if len(obj.coords) != len(obj.payloads):
             return {"obj": "mismatch"}
-        return [[H._coord(c), snap(p)] for c, p in zip(obj.coords, obj.payloads)]
+        return [[_coord(c), snap(p)] for c, p in zip(obj.coords, obj.payloads)]
     return _num(obj)
 
 
@@ -507,6 +548,9 @@ def _build_yaml_obj(case):
         elif tf[0] == "flatten2":
             t = t.flattenRanks().flattenRanks()
         t.setName(name)   # transforms decorate the name; the round trip is what is examined
+    if case["kind"] == "fiber":   # dump / load at FIBER level: the (tensor-owned) root of the transformed tensor
+        case["fdepth"] = len(t.getRankIds())
+        return t.getRoot()
     return t
 
 
@@ -550,9 +594,9 @@ def _run_yaml(case):
     if is_tensor:
         depth = len(obj.getRankIds())
         orig = {"tree": snap(root), "rank_ids": [json.dumps(_plain(r)) for r in obj.getRankIds()],
-                "shape": _plain(obj.getShape()), "name": obj.getName()}
+                "shape": _shape(obj.getShape()), "name": obj.getName()}
     else:
-        depth = case["d"]
+        depth = case.get("fdepth", case["d"])
         orig = {"tree": snap(root), "rank_ids": [], "shape": [], "name": ""}
         orig["fshape"] = _plain(_try(lambda: obj.getShape())[0])
     orig["depth"] = depth
@@ -619,7 +663,7 @@ def _run_yaml(case):
             a, _e1 = _try(lambda: bool(cloaded == obj))
             b2, _e2 = _try(lambda: bool(obj == cloaded))
             impl["ctor"] = {"tree": snap(croot), "rank_ids": [json.dumps(_plain(r)) for r in cloaded.getRankIds()],
-                            "shape": _plain(cloaded.getShape()), "name": cloaded.getName(),
+                            "shape": _shape(cloaded.getShape()), "name": cloaded.getName(),
                             "eq": bool(a) and bool(b2)}
     if loaded is None:
         impl["loaded"] = None
@@ -628,7 +672,7 @@ def _run_yaml(case):
         lroot = loaded.getRoot() if is_tensor else loaded
         if is_tensor:
             impl["loaded"] = {"tree": snap(lroot), "rank_ids": [json.dumps(_plain(r)) for r in loaded.getRankIds()],
-                              "shape": _plain(loaded.getShape()), "name": loaded.getName()}
+                              "shape": _shape(loaded.getShape()), "name": loaded.getName()}
             if depth >= 1:
                 impl["loaded_dflt"] = _num(Payload.get(loaded.getDefault()))
         else:
@@ -800,7 +844,7 @@ def _attribute(case, clause):
     if op == "yaml":
         orig, b = case.get("orig") or {}, case.get("build") or {}
         fs, lfs = orig.get("fshape"), impl.get("loaded_fshape")
-        if (clause == "fiber-shape" and case["kind"] == "fiber" and "fiber_nest" in b and orig.get("depth", 0) >= 2
+        if (clause == "fiber-shape" and case["kind"] == "fiber" and ("fiber_nest" in b or "nest" in b) and orig.get("depth", 0) >= 2
                 and isinstance(fs, list) and isinstance(lfs, list) and fs[:1] == lfs[:1]):
             return CLASSES[2]
         if clause == "ctor-loads" and case["kind"] == "tensor" and orig.get("depth") == 0:
